@@ -60,14 +60,18 @@ def run_selftest(prop, repo, only=None):
             r = subprocess.run([sys.executable, os.path.join(VERIF, "check"), prop, "--repo", scratch, "--tier", "quick"],
                                capture_output=True, text=True, env=env)
             fired = [l.strip() for l in r.stdout.splitlines() if l.strip().startswith("FAILED")]
-            if r.returncode == 1 and "VIOLATION property=" in r.stdout:
-                status = "detected"
-            elif "FACTS-ERROR" in (r.stdout + r.stderr):
+            expect_silent = os.path.basename(pf).startswith("ok_")
+            violated = r.returncode == 1 and "VIOLATION property=" in r.stdout
+            if "FACTS-ERROR" in (r.stdout + r.stderr):
                 status = "skipped-does-not-compile"
+            elif expect_silent:
+                status = "silent-as-expected" if (r.returncode == 0 and not violated) else "FALSE-ALARM"
+            elif violated:
+                status = "detected"
             else:
                 status = "MISSED"
             results.append({"patch": name, "status": status, "fired": fired[:6],
-                            "detail": (r.stderr[-300:] if status != "detected" else "")})
+                            "detail": (r.stderr[-300:] if status not in ("detected", "silent-as-expected") else "")})
             subprocess.run(["git", "apply", "-R", "--whitespace=nowarn", pf], cwd=scratch, check=True)
     finally:
         shutil.rmtree(base, ignore_errors=True)
@@ -75,12 +79,17 @@ def run_selftest(prop, repo, only=None):
 
 
 if __name__ == "__main__":
-    prop = sys.argv[1]
-    res = run_selftest(prop, sys.argv[2] if len(sys.argv) > 2 else "/repo", only=(sys.argv[3] if len(sys.argv) > 3 else None))
+    import argparse
+    ap = argparse.ArgumentParser()
+    ap.add_argument("prop")
+    ap.add_argument("--repo", default="/repo")
+    ap.add_argument("--only")
+    a = ap.parse_args()
+    res = run_selftest(a.prop, a.repo, only=a.only)
     for r in res:
         print(r["status"], r["patch"])
         for f in r.get("fired", []):
             print("    ", f[:260])
         if r.get("detail"):
             print("    ", r["detail"])
-    sys.exit(1 if any(r["status"] == "MISSED" for r in res) else 0)
+    sys.exit(1 if any(r["status"] in ("MISSED", "FALSE-ALARM") for r in res) else 0)
